@@ -44,7 +44,7 @@ Definition w_cyl_edge : cyl_row :=
 Definition w_seg (r : Qc) : seg_row :=
   {| cs_r := r; cs_phi := q 78 100; cs_phio2 := q (-550) 100; cs_c := q 7 10; cs_s := q 7 10; cs_z := z 0;
      cs_r1 := z 1; cs_r2 := z 2; cs_h := z 2; cs_phi1 := z 0; cs_phi2 := z 90;
-     cs_phi1r := z 0; cs_phi2r := q 157 100;
+     cs_red1 := z 0; cs_red2 := z 90; cs_phi1r := z 0; cs_phi2r := q 157 100; cs_pi := q 314 100;
      cs_pol := (z 0, z 0, z 1); cs_pxy := z 0; cs_pabs := z 1; cs_dphi := z 0 |}.
 Definition w_seg_on := w_seg (z 2).
 Definition w_seg_off := w_seg (z 5).
